@@ -139,6 +139,12 @@ func c15Scenarios(thorough bool) []c15Scenario {
 }
 
 func runC15(c *core.Ctx, r *core.Result) {
+	if c.Shard == 0 && c.Only == "" {
+		r.Eval()
+		if diffs := c15Frozen(); len(diffs) > 0 {
+			r.Violate(core.Violation{Key: "fixed-lists", Signature: "C15:fixed-list-differs", Desc: "the developer list / mint table / special addresses of the code differ from the fixed lists the property refers to", Detail: diffs})
+		}
+	}
 	for i, sc := range c15Scenarios(c.Thorough()) {
 		if !c.Mine(i) && c.Only == "" {
 			continue
@@ -280,8 +286,8 @@ func c15One(c *core.Ctx, r *core.Result, sc c15Scenario) {
 	// ---- run with a per-block tracker of the special addresses
 	var special []factom.FAAddress
 	devIdx := map[string]int{}
-	for i, dv := range node.DeveloperRewardAddreses {
-		a, _ := factom.NewFAAddress(dv.DevAddress)
+	for i, dv := range c15DevList {
+		a, _ := factom.NewFAAddress(dv.addr)
 		special = append(special, a)
 		devIdx[hex.EncodeToString(a[:])] = i
 	}
@@ -312,8 +318,8 @@ func c15One(c *core.Ctx, r *core.Result, sc c15Scenario) {
 		r.Violate(core.Violation{Key: sc.name, Signature: "C15:" + sig, Desc: desc, Detail: detail})
 	}
 	mintList := map[string]uint64{}
-	for _, m := range node.MintTotalSupplyMap {
-		mintList[m.Ticker.String()] = m.Amount * 1e8
+	for t, amt := range c15MintList {
+		mintList[t] = amt * 1e8
 	}
 	kOld, kNew, kMint := hex.EncodeToString(oldBurn[:]), hex.EncodeToString(newBurn[:]), hex.EncodeToString(mint[:])
 	var problems []string
@@ -349,7 +355,7 @@ func c15One(c *core.Ctx, r *core.Result, sc c15Scenario) {
 					got += int64(cur[kC][x]) - int64(prev[kC][x])
 				}
 				if di, isDev := devIdx[a]; isDev && x == "PEG" && h >= era.DevRewards && h%144 == 0 {
-					pct := node.DeveloperRewardAddreses[di].DevRewardPct
+					pct := c15DevList[di].pct
 					unit := int64(2000e8 / 100)
 					amt := int64(float64(unit) * pct)
 					if h >= era.V202 {
